@@ -5,8 +5,35 @@ import os
 import sys
 
 
+def _coverage_start():
+    """VERIF_COV=<dir>: record which lines of optimum/quanto this shard executes (sys.monitoring, each line reported once).
+    Diagnostic for generator completeness only (tools/cov_report.py); never part of a verdict."""
+    mon = sys.monitoring
+    tool = mon.COVERAGE_ID
+    mon.use_tool_id(tool, "verifcov")
+    hits = set()
+
+    def on_line(code, line):
+        fn = code.co_filename
+        if "/optimum/quanto/" in fn:
+            hits.add((fn, line))
+        return mon.DISABLE
+
+    mon.register_callback(tool, mon.events.LINE, on_line)
+    mon.set_events(tool, mon.events.LINE)
+    return hits
+
+
+def _coverage_dump(hits, spec):
+    d = os.environ["VERIF_COV"]
+    os.makedirs(d, exist_ok=True)
+    with open(os.path.join(d, f"{spec['check']}-{spec['sub']}-{spec['shard']}-{os.getpid()}.json"), "w") as f:
+        json.dump(sorted(hits), f)
+
+
 def main():
     spec = json.loads(sys.argv[1])
+    hits = _coverage_start() if os.environ.get("VERIF_COV") else None
     from . import env
 
     env.setup()
@@ -32,6 +59,8 @@ def main():
     else:
         mod.SUBCHECKS[spec["sub"]]["run"](ctx)
         res = ctx.result()
+    if hits is not None:
+        _coverage_dump(hits, spec)
     tmp = spec["result"] + ".tmp"
     with open(tmp, "w") as f:
         json.dump(res, f, default=str)
